@@ -6,7 +6,7 @@ set -u
 SD=$(realpath "$1"); shift
 export GOFLAGS=-mod=mod GOPROXY=off
 WT=/tmp/wt/seedtest-$$
-git -C /repo worktree add -q --detach "$WT" HEAD || exit 2
+git -C /repo worktree add -q --detach "$WT" "${SEED_BASE:-HEAD}" || exit 2
 trap 'git -C /repo worktree remove --force "$WT"; rm -rf /verif/bin/alt-*' EXIT
 echo "== demo on unchanged tree"
 bash "$SD/demo/run.sh" "$WT" >/tmp/seedtest-clean.log 2>&1; echo "   exit=$? (want 0)"
